@@ -512,11 +512,24 @@ async fn sender_task(w: Rc<World>, sidx: usize, sink: v5::MqttSink, ops: Vec<App
             continue;
         }
         let fut = exec_op(&w, sidx, opi, &op, &sink);
-        let res = match select(fut, w.sender_cancelled(sidx)).await {
-            Either::Left(r) => r,
-            Either::Right(()) => {
-                w.ev(Ev::OpCancel { sender: sidx, op: opi });
-                OpResult::Cancelled
+        // Two ways of cancelling: `select(op, cancel)` polls the operation once more before it is dropped,
+        // `select(cancel, op)` drops it as it is - a waiter that has just been given its wake-up is then
+        // dropped without having run (a task abort or a timeout firing first look like this).
+        let res = if (sidx + opi) % 2 == 0 {
+            match select(fut, w.sender_cancelled(sidx)).await {
+                Either::Left(r) => r,
+                Either::Right(()) => {
+                    w.ev(Ev::OpCancel { sender: sidx, op: opi });
+                    OpResult::Cancelled
+                }
+            }
+        } else {
+            match select(w.sender_cancelled(sidx), fut).await {
+                Either::Right(r) => r,
+                Either::Left(()) => {
+                    w.ev(Ev::OpCancel { sender: sidx, op: opi });
+                    OpResult::Cancelled
+                }
             }
         };
         w.sender_op_done(sidx);
